@@ -445,7 +445,12 @@ func RunWriter(p *WProg) (evs []Ev) {
 }
 
 func runWriterOnce(p *WProg, fault *WFault, id string) (evs []Ev, nops map[int]int) {
-	r := &writerRun{p: p, pays: map[int][]byte{}, xerrs: map[error]bool{}}
+	evs, nops, _ = runWriterKeep(p, fault, id)
+	return evs, nops
+}
+
+func runWriterKeep(p *WProg, fault *WFault, id string) (evs []Ev, nops map[int]int, r *writerRun) {
+	r = &writerRun{p: p, pays: map[int][]byte{}, xerrs: map[error]bool{}}
 	r.mask = installMask()
 	now := time.Now()
 	r.dls = map[string]time.Time{"d1": now.Add(time.Hour), "d2": now.Add(2 * time.Hour), "past": now.Add(-time.Hour)}
@@ -494,7 +499,7 @@ func runWriterOnce(p *WProg, fault *WFault, id string) (evs []Ev, nops map[int]i
 			}
 		}
 	}
-	return evs, nops
+	return evs, nops, r
 }
 
 func (r *writerRun) exec(fault *WFault, outp *[]Ev) (out []Ev) {
